@@ -137,7 +137,7 @@ func vSessionBuf() *bytes.Buffer {
 // sequences; after the start-up cleanup only complete snapshots remain, the
 // recorded snapshot exists with a valid file, temporary and orphaned
 // directories are gone, and nothing acknowledged was lost.
-//vcheck: reach=crashed-mid-way,no-crash,recorded-snapshot-valid,nothing-recorded,done workers=16
+//vcheck: reach=crashed-mid-way,no-crash,recorded-snapshot-valid,nothing-recorded,done workers=16 forbid="."
 func VHarness_C16_SnapshotCrash() {
 	mem := gvfs.NewStrictMem()
 	clock := &vCrashClock{mem: mem, crashAt: -1}
